@@ -148,8 +148,13 @@ BackEdge(cname, pn) ==
                                     ELSE <<"U", "CvtToFuzzy", << <<"InFieldName", <<"ref", "T">>>> >> >>)
     ELSE IF Fuzz(d) = "fuzzy" THEN <<"U", "CvtFromFuzzy", << <<"InFieldName", <<"ref", "T">>>>, <<"TrueThreshold", <<"int", "other">>>>, <<"FalseThreshold", <<"float">>>> >> >>
     ELSE <<"U", "Copy", << <<"InFieldName", <<"ref", "T">>>> >> >>
+\* a command outside the cycle that reads T through a parameter that constrains fuzziness (what it asks about T must not walk round the cycle for ever)
+Reader(cname) == LET d == D(cname) IN
+    IF OutKind(d) # "data" THEN <<>>
+    ELSE IF Fuzz(d) = "fuzzy" THEN << <<"V", "FuzzyOr", << <<"InFieldNames", <<"list", <<<<"ref", "T">>, <<"ref", "F">>>>>> >> >> >> >>
+    ELSE << <<"V", "Sum", << <<"InFieldNames", <<"list", <<<<"ref", "T">>, <<"ref", "R">>>>>> >> >> >> >>
 Fix(cname, f) == IF f[1] = "pair" THEN Fixture \o <<Cmd("PP", f[3], FALSE)>>
-                 ELSE IF f[1] = "cycle" THEN Fixture \o <<BackEdge(cname, f[2])>> ELSE Fixture
+                 ELSE IF f[1] = "cycle" THEN Fixture \o <<BackEdge(cname, f[2])>> \o Reader(cname) ELSE Fixture
 Build(cname, all, f, pos) == IF pos = "first" THEN <<Target(cname, all, f)>> \o Fix(cname, f) ELSE Fix(cname, f) \o <<Target(cname, all, f)>>
 
 \* ---------- reference cycles of a program
